@@ -176,6 +176,7 @@ func c07History(r *hx.Run, w *W, ps *plans, rnd *rand.Rand, in c07Inst, hi int) 
 				gate := make(chan struct{})
 				ps.set(uri, &plan{Seq: []ans{{Kind: "nocache"}}, Gate: func(*hx.Fetch) <-chan struct{} { return gate }})
 				quitter := hx.NewClient(w.Clock.Now)
+				defer quitter.CloseIdle()
 				qdone := make(chan struct{})
 				savedBefore := w.Pts.Count("hfp.saved") + w.Pts.Count("cacheable.saved")
 				go func() {
